@@ -185,7 +185,9 @@ def main(tier):
     # the operator-level obligations speak about the solution only through "every backend returns the exact solution of the
     # assembled system" (C01).  That link is exercised here on structures that stress the custom solver's index logic, so that
     # this check stands alone: the C01 chain (Thomas/Stone code through the elimination contracts) on a few irregular trees.
-    chain_structs = [[([-1, 0, 0, 2], [1, 1, 2, 1])], [([-1, 0, 0, 2, 2], [2, 1, 2, 2, 1])], [([-1, 0, 1, 1], [2, 1, 1, 2])], [([-1, 0, 0], [2, 1, 2]), ([-1, 0], [1, 2])]]
+    chain_structs = [[([-1, 0, 0, 2], [1, 1, 2, 1])], [([-1, 0, 0, 2, 2], [2, 1, 2, 2, 1])], [([-1, 0, 1, 1], [2, 1, 1, 2])], [([-1, 0, 0], [2, 1, 2]), ([-1, 0], [1, 2])],
+                     # networks whose cells differ in tree depth (the level schedules of the cells are merged; seeded change C02_c)
+                     [([-1, 0, 0], [1, 1, 1]), ([-1, 0, 0, 1, 1], [1, 1, 1, 1, 1])], [([-1, 0, 1], [2, 2, 2]), ([-1], [2])]]
     outs_c = run_units("jxverif.props.C01", "structure_worker", [(c, tier, ["jaxley.thomas", "jaxley.stone"]) for c in chain_structs])
     for o in outs_c:
         if o[0] != "ok" or o[1]["error"]:
